@@ -502,4 +502,70 @@ def warnsFor (exc : ExcClass) (env : Env) : Bool :=
   | .inaccessibleSource => env.inspectSourceSupported
   | _ => true
 
+/-! ## Histories: the negative cache as state threaded through a list of calls -/
+
+/-- The exclusions that do not depend on the context of the call (nor on the cache): the only reasons, besides a
+failed conversion, for which `converted_call` writes the negative cache. -/
+def StableExcluded (d : Desc) (o : Opts) : Prop :=
+  d.artifact = true ∨ d.builtin ≠ .notBuiltin ∨ isUnsupported d = true ∨
+  (o.userRequested = false ∧ allowlisted d.ent = true) ∨ o.internalConvert = false ∨ d.kind = .other ∨
+  d.targetHasCode = false ∨ d.targetStringFile = true ∨ d.fail.isSome = true
+
+/-- Boolean version (for the driver: class predicate of finding C13-shared-function-owner-allowlist). -/
+def stableExcludedB (d : Desc) (o : Opts) : Bool :=
+  d.artifact || d.builtin != .notBuiltin || isUnsupported d || (!o.userRequested && allowlisted d.ent) ||
+  !o.internalConvert || d.kind == .other || !d.targetHasCode || d.targetStringFile || d.fail.isSome
+
+/-- `c'` is `c` with some more entries in the negative cache, each of them benign: a partial level is
+remembered only if it is an artifact, the base only if a context-free exclusion (or a deterministic failure) holds. -/
+def Benign (o : Opts) : Callable α → Callable α → Prop
+  | .base d s b, .base d' s' b' =>
+      s' = s ∧ b' = b ∧ (d' = d ∨ (d' = { d with inCache := true } ∧ StableExcluded d o))
+  | .part d a k i, .part d' a' k' i' =>
+      a' = a ∧ k' = k ∧ (d' = d ∨ (d' = { d with inCache := true } ∧ d.artifact = true)) ∧ Benign o i i'
+  | _, _ => False
+
+/-- The callable after a sequence of wrapped calls with the same options (any contexts, any arguments). -/
+def callSeq (o : Opts) (c : Callable α) : List (Env × List α × Option (Kw α)) → Callable α
+  | [] => c
+  | (env, args, kw) :: rest => callSeq o (call env o c args kw).2 rest
+
+/-- The negative cache: remembered (cache key of the entity, key of the options value) pairs.  The key of a bound
+method is its `__func__` (`UnboundInstanceCache`), so callables may share entries. -/
+abbrev CacheState := List (Nat × Nat)
+
+/-- set the in-cache facts of every level from the cache state (`keys`: cache key per level, outermost first) -/
+def Callable.load (st : CacheState) (ok : Nat) : Callable α → List Nat → Callable α
+  | .base d s b, k :: _ => .base { d with inCache := d.inCache || st.contains (k, ok) } s b
+  | .base d s b, [] => .base d s b
+  | .part d a k0 i, k :: ks => .part { d with inCache := d.inCache || st.contains (k, ok) } a k0 (i.load st ok ks)
+  | .part d a k0 i, [] => .part d a k0 (i.load st ok [])
+
+/-- write the in-cache facts of every level back into the cache state -/
+def Callable.store (ok : Nat) : Callable α → List Nat → CacheState → CacheState
+  | .base d _ _, k :: _, st => if d.inCache && !st.contains (k, ok) then (k, ok) :: st else st
+  | .base _ _ _, [], st => st
+  | .part d _ _ i, k :: ks, st =>
+      i.store ok ks (if d.inCache && !st.contains (k, ok) then (k, ok) :: st else st)
+  | .part _ _ _ i, [], st => i.store ok [] st
+
+/-- One call of a history: which callable, in which context, with which options (and the key of that options value). -/
+structure HCall (α : Type) where
+  slot : Nat
+  env : Env
+  optsKey : Nat
+  opts : Opts
+  args : List α
+  kw : Option (Kw α)
+
+/-- A history of wrapped calls over several callables sharing one negative cache: the effect of every call. -/
+def runHistory (cs : List (Callable α × List Nat)) (st : CacheState) : List (HCall α) → List (Effect α)
+  | [] => []
+  | h :: rest =>
+    match cs[h.slot]? with
+    | none => runHistory cs st rest
+    | some (c, keys) =>
+      let r := call h.env h.opts (c.load st h.optsKey keys) h.args h.kw
+      r.1 :: runHistory cs (r.2.store h.optsKey keys st) rest
+
 end Malt.Policy
